@@ -5,6 +5,7 @@ import (
 	"go/ast"
 	"go/constant"
 	"go/token"
+	"go/types"
 	"sort"
 	"strings"
 
@@ -735,6 +736,19 @@ func c17Register(c *Ctx, p *Prog, m *Model) {
 				probs = append(probs, fmt.Sprintf("must be recorded exactly when %s, found guards %v", nd.cond, gds))
 			}
 		}
+		if nd.table == "shortTagMap" {
+			// every width 1..5 that was given is recorded: the counted loop around the store starts at 0 or 1 and runs to
+			// the end of the table
+			if first, bound, n, ok := widthLoopCovers(*found); ok {
+				if mx, okc := p.ConstInt(p.Slog, "MaxLengthShortTag"); okc && n == 0 {
+					n = mx
+				}
+				r.Check(first <= 1 && bound >= n, "R17.4", key+":widths", p.Pos(instrPos(found.Instr)), fmt.Sprintf("the loop records the widths %d..%d of the %d-slot table", first, bound-1, n),
+					fmt.Sprintf("the loop records the tags of the widths %d..%d only, the table has the widths 1..%d: a custom tag of a width outside the loop is dropped and ShortTag falls back to the cut name", first, bound-1, n-1))
+			} else if found.Kind == "mapupdate" || found.Kind == "mapupdate2" {
+				r.Unk("R17.4", key+":widths", p.Pos(instrPos(found.Instr)), "the widths visited around the store could not be derived (not a counted loop over the table)")
+			}
+		}
 		r.Check(len(probs) == 0, "R17.4", key, p.Pos(instrPos(found.Instr)), "recorded under the new level's value"+map[bool]string{true: " when " + nd.cond, false: ""}[nd.cond != ""], nm(fn)+": "+strings.Join(probs, "; "))
 	}
 }
@@ -1204,4 +1218,86 @@ func sliceAllLower(s ssa.Value, depth int, seen map[ssa.Value]bool) bool {
 		return true
 	}
 	return false
+}
+
+// widthLoopCovers: the store shortTagMap[i][level] = tag sits in a counted loop; the widths it visits are
+// [first, bound). ok is false when the index is not a recognised counted-loop variable.
+func widthLoopCovers(st GlobalStore) (first, bound int64, arrLen int64, ok bool) {
+	mu, isMU := st.Instr.(*ssa.MapUpdate)
+	if !isMU {
+		return
+	}
+	var idx ssa.Value
+	switch x := mu.Map.(type) {
+	case *ssa.Lookup: // map[int]map[Level]string
+		idx = x.Index
+	case *ssa.UnOp: // [n]map[Level]string
+		ia, isIA := x.X.(*ssa.IndexAddr)
+		if !isIA {
+			return
+		}
+		idx = ia.Index
+		if pt, isP := ia.X.Type().Underlying().(*types.Pointer); isP {
+			if at, isA := pt.Elem().Underlying().(*types.Array); isA {
+				arrLen = at.Len()
+			}
+		}
+	default:
+		return
+	}
+	var ph *ssa.Phi
+	var tested ssa.Value
+	switch x := idx.(type) {
+	case *ssa.Phi:
+		ph, tested = x, x
+	case *ssa.BinOp: // range form: idx = phi + 1, phi starts at -1
+		one, isC := constInt(x.Y)
+		p2, isPhi := x.X.(*ssa.Phi)
+		if x.Op != token.ADD || !isC || one != 1 || !isPhi {
+			return
+		}
+		ph, tested = p2, x
+	default:
+		return
+	}
+	haveFirst, step := false, false
+	for _, e := range ph.Edges {
+		if k, isC := constInt(e); isC {
+			if haveFirst {
+				return
+			}
+			first, haveFirst = k, true
+			continue
+		}
+		bo, isB := e.(*ssa.BinOp)
+		if !isB || bo.Op != token.ADD || bo.X != ssa.Value(ph) {
+			return
+		}
+		if one, isC := constInt(bo.Y); !isC || one != 1 {
+			return
+		}
+		step = true
+	}
+	if !haveFirst || !step {
+		return
+	}
+	if tested != ssa.Value(ph) {
+		first++ // range form: the first index used is -1 + 1
+	}
+	for _, g := range guardsOf(st.Instr.Block()) {
+		cond, neg := normCond(g.If.Cond)
+		bo, isB := cond.(*ssa.BinOp)
+		if !isB || (g.Succ == 0) == neg {
+			continue
+		}
+		if k, isC := constInt(bo.Y); isC && bo.X == tested {
+			switch bo.Op {
+			case token.LSS:
+				return first, k, arrLen, true
+			case token.LEQ:
+				return first, k + 1, arrLen, true
+			}
+		}
+	}
+	return
 }
